@@ -37,7 +37,11 @@ Hs == /\ l <= 3
       /\ P.fl = (CASE l = 1 -> "S" [] l = 2 -> "SA" [] OTHER -> "A")
       /\ P.d = (IF l = 2 THEN "s" ELSE "c") /\ P.len = 0
       /\ P.seq = (IF l = 3 THEN 1 ELSE 0) /\ P.ack = (IF l = 1 THEN 0 ELSE 1)
-      /\ \E d \in Dir : \E r \in 1..NR(d) : P.ts \in CarSet(d, r) /\ \A j \in 1..(r - 1) : R(d)[j].n = 0   \* first exported record of a direction
+      \* "the time of the first exported record": the very time the first data packet of the conversation carries (the handshake is never
+      \* stamped later than the data it introduces) -- or, when records without data come first, the time of a carrier of such a record
+      /\ \/ Len(T.pkts) >= 4 /\ T.pkts[4].fl = "PA" /\ P.ts = T.pkts[4].ts
+         \/ \E d \in Dir : \E r \in 1..NR(d) : P.ts \in CarSet(d, r) /\ \A j \in 1..r : R(d)[j].n = 0
+         \/ ~(Len(T.pkts) >= 4 /\ T.pkts[4].fl = "PA") /\ \E d \in Dir : \E r \in 1..NR(d) : P.ts \in CarSet(d, r) /\ \A j \in 1..(r - 1) : R(d)[j].n = 0
       /\ UNCHANGED <<ri, used, parts, nxt>>
 
 \* the record of direction d a data packet belongs to: the current one, or a later one when everything in between is complete
